@@ -55,6 +55,25 @@ class Unit:
         ov = {}
         for f in glob.glob(os.path.join(self.hdir, "*.go")):
             ov[os.path.join(self.pkgdir, os.path.basename(f))] = f
+        # native call-site hooks: a rewritten copy of one source file of the CURRENT tree (see the json)
+        hk = os.path.join(self.hdir, "native_hooks.json")
+        self.hooks = None
+        if os.path.exists(hk):
+            h = json.load(open(hk))
+            srcf = os.path.join(self.pkgdir, h["file"])
+            try:
+                src = open(srcf).read()
+                okh = all(src.count(a) == 1 for a, _ in h["subs"])
+                if okh:
+                    for a, b in h["subs"]:
+                        src = src.replace(a, b)
+                    src += "\n".join(h["append"]) + "\n"
+                    dst = os.path.join(self.modfile, "hooked_" + h["file"])
+                    open(dst, "w").write(src)
+                    ov[srcf] = dst
+                self.hooks = okh
+            except OSError:
+                self.hooks = False
         self.ovfile = os.path.join(self.modfile, "overlay_%s.json" % self.pkg.replace("/", "_"))
         json.dump({"Replace": ov}, open(self.ovfile, "w"))
 
